@@ -35,6 +35,20 @@ struct cmb_condition *cmb_condition_create(void)
     return r;
 }
 
+/*
+ * forwarded_signal - A guard that this condition observes was signalled. For a
+ * condition that means evaluating every waiter's predicate, like an explicit
+ * cmb_condition_signal(), not just the first one in the queue.
+ */
+static bool forwarded_signal(struct cmb_resourceguard *rgp)
+{
+    cmb_assert_debug(rgp != NULL);
+
+    struct cmb_condition *cvp = (struct cmb_condition *)(rgp->guarded_resource);
+
+    return cmb_condition_signal(cvp);
+}
+
 void cmb_condition_initialize(struct cmb_condition *cvp,
                               const char *name)
 {
@@ -43,6 +57,7 @@ void cmb_condition_initialize(struct cmb_condition *cvp,
 
     cmi_resourcebase_initialize((struct cmi_resourcebase *)cvp, name);
     cmb_resourceguard_initialize(&(cvp->guard), (struct cmi_resourcebase *)cvp);
+    cvp->guard.on_forwarded_signal = forwarded_signal;
 }
 
 void cmb_condition_terminate(struct cmb_condition *cvp)
